@@ -34,9 +34,9 @@ claim("C16", "M", "SMT bounded model checking of MIR (z3 + cvc5 portfolio)",
 claim("C07", "M", "SMT bounded model checking of MIR (z3 + cvc5 portfolio)",
       "Kernel level: claim-package fee kernels (first-attempt fee, RBF bumping incl. BIP-125 rules 3/4 and monotone feerates, anchor-claim feerate strategy, package output value, package locktime) for all amounts/estimates over a stated finite set of transaction weights and <=2 (quick) / <=3 (thorough) inputs. Which outputs are claimed, scripts and the sweeper are outside the claim.",
       "trusted: rustc MIR dump, engine_m, z3; fee estimator = arbitrary u32 (<= u32::MAX/5 for the anchor strategy); previous feerate <= inputs*1000/weight")
-claim("C11", "M+K", "SMT bounded model checking of MIR (z3); Kani/CBMC harnesses for the BlockLocator ring",
-      "Kernel level: anti-reorg confirmation thresholds of both on-chain event queues (no irreversible conclusion before ANTI_REORG_DELAY confirmations nor before a CSV output matures), heights 1..2^31, all CSV delays; BlockLocator ring operations (Kani) where registered. Equivalence of block-delivery styles is history-quantified and outside the claim.",
-      "trusted: rustc MIR dump, engine_m, z3, Kani/CBMC")
+claim("C11", "M+K", "SMT bounded model checking of MIR (z3 + cvc5); Kani/CBMC harnesses for the BlockLocator ring",
+      "Kernel level: anti-reorg confirmation thresholds of both on-chain event queues (no irreversible conclusion before ANTI_REORG_DELAY confirmations nor before a CSV output matures), heights 1..2^31, all CSV delays; the per-entry reorg decisions of ChannelMonitor - blocks_disconnected retracts exactly the events above the fork point, a funding spend counts as final only with ANTI_REORG_DELAY confirmations - for all u32 heights and queues of any length, replayed on a live monitor; BlockLocator ring operations (Kani) where registered. Equivalence of block-delivery styles and multi-step reorg histories are outside the claim.",
+      "trusted: rustc MIR dump, engine_m, z3/cvc5, Kani/CBMC")
 claim("C17", "M", "SMT bounded model checking of MIR (z3 + cvc5 portfolio)",
       "Kernel level (narrow): the channel_update acceptance closures of NetworkGraph::update_channel_internal - strictly newer timestamp per direction, htlc_maximum <= known capacity - for all timestamps/flags/amounts, node_announcement ordering (applied iff the node is known and the timestamp is strictly newer, signed and unsigned path alike) and one step of the stale-channel pruning loop (each direction judged by its own timestamp; removal iff a direction is missing and the announcement is old); counterexamples are replayed through the public NetworkGraph API. Signatures, channel announcements and order-independence over message sets are outside the claim.",
       "trusted: rustc MIR dump, engine_m, z3")
@@ -50,9 +50,9 @@ claim("C04", "M", "SMT bounded model checking of MIR (z3 + cvc5 portfolio)",
 claim("C05", "M+K", "SMT bounded model checking of MIR with SHA-256 uninterpreted (z3 + cvc5); Kani/CBMC harnesses for slot arithmetic",
       "Kernel level: the counterparty-secret store. Engine M (symbolic seed, uninterpreted hash, top m commitment indices in protocol order): every honest secret is accepted, every revoked index stays recoverable and equals the seed-derived secret, a secret that does not derive the stored lower secrets is refused and the store is unchanged. Engine K: place_secret for all u64, slot masks, get_min_seen_secret. The EC check of a secret against the announced commitment point and all call-sequence rules are outside the claim.",
       "trusted: rustc MIR dump, engine_m, z3/cvc5, Kani/CBMC; native replay runs the same sequences with real SHA-256 on a fixed seed")
-claim("C12", "K", K,
-      "Kernel level: codec primitives (ints, U48, BigSize, CollectionLength, HighZeroBytesDroppedBigSize, bool, Option) round-trip and canonical-form rejection for every input <= 10 bytes; FixedLengthReader bounds; the real TLV macros on a probe struct (ordering, required/unknown-even/odd rules, exact lengths, truncation). Large persisted objects are outside the claim.",
-      "trusted: Kani/CBMC; Kani-only model of bitcoin-io's io::Error payload (harness/patched/bitcoin-io)")
+claim("C12", "M+K", "Kani/CBMC bounded model checking of the codec primitives and TLV macros; SMT bounded model checking of MIR (z3 + cvc5) for writer/reader field wiring over an abstract TLV record stream",
+      "Kernel level: codec primitives (ints, U48, BigSize, CollectionLength, HighZeroBytesDroppedBigSize, bool, Option) round-trip and canonical-form rejection for every input <= 10 bytes; FixedLengthReader bounds; the real TLV macros on a probe struct (ordering, required/unknown-even/odd rules, exact lengths, truncation) (Kani). Engine M: the persisted ClaimableHTLC written by write_claimable_htlc reads back through its separately written reader with every field intact, for all field values and optional-field combinations, leaf codecs and byte lengths abstracted. Other large persisted objects are outside the claim.",
+      "trusted: Kani/CBMC; Kani-only model of bitcoin-io's io::Error payload (harness/patched/bitcoin-io); rustc MIR dump, engine_m, z3/cvc5; stream stubs listed in obligations/tlv_stream.py")
 claim("C13", "M+K", "Kani/CBMC bounded model checking of the compiled codecs; SMT bounded model checking of MIR (z3 + cvc5) for the node_announcement address section, incl. one inductive loop step",
       "Kernel level: key-free peer messages round-trip for arbitrary field values; decoding of bounded arbitrary inputs is total, canonical and never reads past the buffer; unknown even TLVs rejected, odd ignored, out-of-range bool rejected (Kani). Engine M: address-descriptor lengths for all kinds and hostname lengths; the node_announcement decoder's address section with the byte source as a nondeterministic stub - accepted announcements account for exactly addrlen bytes (no address overruns addrlen), no panic, for <= 2 (quick) / 4 (thorough) descriptors, plus one loop iteration from an arbitrary invariant-satisfying loop-head state (any number of earlier addresses, any source length < 2^40). Messages with keys/signatures, onion packets and wire::read are outside the claim.",
       "trusted: Kani/CBMC; Kani-only model of bitcoin-io's io::Error payload; rustc MIR dump, engine_m, z3/cvc5; reader stub listed in the evidence")
